@@ -8,7 +8,8 @@ pairs = [a.split("=") for a in sys.argv[3:]]
 path = "/verif/coq/props/" + prop
 src = open(path).read()
 old_imports = "\n".join(l for l in src.split("\n") if l.startswith("From HC Require") or l.startswith("From Coq Require"))
-q = "%s\n%s\nSet Printing Width 110.\n" % (old_imports, imports) + "".join("Check %s.\n" % l for _, l in pairs)
+# same order as in the file: the new import comes first
+q = "%s\n%s\nSet Printing Width 110.\n" % (imports, old_imports) + "".join("Check %s.\n" % l for _, l in pairs)
 open("/tmp/addprops_q.v", "w").write(q)
 r = subprocess.run("cd /verif/coq && coqc -Q . HC /tmp/addprops_q.v", shell=True, capture_output=True, text=True)
 assert r.returncode == 0, r.stdout + r.stderr
